@@ -48,9 +48,13 @@ ASSUMPTIONS = [
     'standalone, CRLF ... are well-formed files with declaration and DOCTYPE: for them only '
     '"is_lmf is true exactly when load accepts the header" is asserted',
     'rejection by add is asserted for a database that holds none of the lexicons of the document '
-    '(empty, or one unrelated lexicon), DESIGN C20 precondition; when the fault hides the first '
-    'lexicon so that the documented pre-check skips every remaining one (all extensions without '
-    'installed base) only "database unchanged" is asserted',
+    '(empty, or one unrelated lexicon), DESIGN C20 precondition. add() reads a file only if its '
+    'pre-scan finds a lexicon to add; when add returns without exception on a mutant and '
+    'scan_lexicons(mutant) lists only extensions (their bases are not installed: the skip of C07; '
+    'happens when the fault hides the base lexicon from the regex scan or gives it an <Extends>) '
+    'only "database unchanged" is asserted (tag add-skips:...); when the scan lists no lexicon at '
+    'all (no valid file does) the silent return is reported, kind '
+    'invalid-file-ignored-by-add:no-lexicon-found',
     'any exception type counts as rejection (lmf.py uses assert for required attributes)',
     'documents avoid Synset without partOfSpeech and SyntacticBehaviour without id (C01 defects of '
     'add, not C20); element text has no Unicode white space other than single U+0020',
@@ -187,11 +191,17 @@ def _enumerate_positions(tier, shard, nshards):
     vs = int(os.environ.get('VERIF_SEED', '1') or 1)
     ndocs = 1 if tier == 'quick' else 5
     max_cut = 40 if tier == 'quick' else 400
-    pairs = _collect(st.tuples(_documents(_SMALL, max_lexicons=2), xmlw.styles()),
-                     ndocs, vs * 7919 + shard * 131 + 17)
+    # Hypothesis starts with minimal examples: draw a pool, keep the richest
+    pool_n = 12 if tier == 'quick' else 40
+
+    def richest(strategy, k, seed_value):
+        pool = _collect(st.tuples(strategy, xmlw.styles()), pool_n, seed_value)
+        pool.sort(key=lambda p: -sum(1 for _ in lmfmut.walk(xmlw.to_tree(p[0]))))
+        return pool[:k]
+    pairs = richest(_documents(_SMALL, max_lexicons=2), ndocs, vs * 7919 + shard * 131 + 17)
     # one 1.0 document per shard as well so that the version class is enumerated
-    pairs += _collect(st.tuples(_documents(_SMALL, max_lexicons=2, version='1.0'), xmlw.styles()),
-                      1, vs * 7919 + shard * 131 + 18)
+    pairs += richest(_documents(_SMALL, max_lexicons=2, version='1.0'), 1,
+                     vs * 7919 + shard * 131 + 18)
     for j, (res, style) in enumerate(pairs):
         db = 'empty' if (j + shard) % 2 == 0 else 'unrelated'
 
@@ -292,7 +302,7 @@ def _compare_scan(scan, loaded, label, out) -> None:
     exp = _proj(loaded)
     got = [dict(x) for x in scan]
     if len(exp) != len(got):
-        out.append(Disc('scan-differs-from-load:number-of-lexicons', f'{label}',
+        out.append(Disc('scan-differs-from-load:number-of-lexicons', label,
                         [(x['id'], x['version']) for x in exp],
                         [(x.get('id'), x.get('version')) for x in got]))
         return
@@ -300,22 +310,24 @@ def _compare_scan(scan, loaded, label, out) -> None:
         for key in ('id', 'version', 'label'):
             if e[key] != g.get(key):
                 out.append(Disc('scan-differs-from-load:' + _cause(e[key], g.get(key)),
-                                f'{label}[{i}].{key}', e[key], g.get(key)))
+                                label, e[key], g.get(key), note=f'lexicon[{i}].{key}'))
         ee, ge = e['extends'], g.get('extends')
         if (ee is None) != (ge is None):
-            out.append(Disc('scan-differs-from-load:extends-presence', f'{label}[{i}].extends',
-                            ee, ge))
+            out.append(Disc('scan-differs-from-load:extends-presence', label, ee, ge,
+                            note=f'lexicon[{i}].extends'))
         elif ee is not None:
             for key in ('id', 'version'):
                 if ee[key] != ge.get(key):
                     out.append(Disc('scan-differs-from-load:' + _cause(ee[key], ge.get(key)),
-                                    f'{label}[{i}].extends.{key}', ee[key], ge.get(key)))
+                                    label, ee[key], ge.get(key),
+                                    note=f'lexicon[{i}].extends.{key}'))
             if set(ge) != {'id', 'version'}:
-                out.append(Disc('scan-differs-from-load:extends-keys', f'{label}[{i}].extends',
-                                ['id', 'version'], sorted(ge)))
+                out.append(Disc('scan-differs-from-load:extends-keys', label,
+                                ['id', 'version'], sorted(ge), note=f'lexicon[{i}].extends'))
         if set(g) != {'id', 'version', 'label', 'extends'}:
-            out.append(Disc('scan-differs-from-load:keys', f'{label}[{i}]',
-                            ['extends', 'id', 'label', 'version'], sorted(g)))
+            out.append(Disc('scan-differs-from-load:keys', label,
+                            ['extends', 'id', 'label', 'version'], sorted(g),
+                            note=f'lexicon[{i}]'))
 
 
 def _prepare_db(state, workdir):
@@ -395,8 +407,9 @@ def valid_oracle(case):
     return out
 
 
-def _add_must_reject(case, f, built, workdir, out, strict=True):
+def _add_must_reject(case, f, built, workdir, out):
     import wn
+    import wn.lmf as lmf
     db = _prepare_db(case['db'], workdir)
     before = dumps.raw_dump(db.file)
     raised = None
@@ -408,25 +421,28 @@ def _add_must_reject(case, f, built, workdir, out, strict=True):
     where = f'{built.cls}:{built.kind}' if built.kind else built.cls
     _note_outcome(case, 'add-raises:' + type(raised).__name__ if raised is not None
                   else 'add-returns')
-    if raised is None and strict:
-        res = case['resource']
-        nothing_found = built.first_lexicon_cut or (
-            built.renamed_lexicon is not None and len(res['lexicons']) == 1)
-        kind = ('invalid-file-ignored-by-add:no-lexicon-found' if nothing_found
-                else 'invalid-file-accepted-by-add')
-        out.append(Disc(kind, where, 'exception', 'returned normally', note=built.what))
+    if raised is None:
+        # add() reads the file only if its pre-scan finds a lexicon to add; see
+        # ASSUMPTIONS for the three outcomes of a silent return
+        try:
+            infos = lmf.scan_lexicons(f)
+        except Exception as exc:  # noqa: BLE001
+            infos = None
+            scan = _exc(exc)
+        else:
+            scan = [(i.get('id'), i.get('version'), bool(i.get('extends'))) for i in infos]
+        if infos is not None and infos and all(i.get('extends') for i in infos):
+            # every lexicon the pre-scan sees is an extension without installed
+            # base: the skip C07 describes; nothing is asserted beyond "unchanged"
+            _note_outcome(case, 'add-skips:every-scanned-lexicon-lacks-its-base')
+        else:
+            kind = ('invalid-file-ignored-by-add:no-lexicon-found' if infos == []
+                    else 'invalid-file-accepted-by-add')
+            out.append(Disc(kind, where, 'exception', 'returned normally',
+                            note=f'{built.what}; scan_lexicons: {scan!r}'[:400]))
     changes = diff(before, after)
     for p, e, g in changes[:5]:
         out.append(Disc('invalid-file-changed-database', f'{where}{p}', e, g, note=built.what))
-
-
-def _precheck_skips_all(case, built) -> bool:
-    """Fault hides lexicon k from the pre-scan and every other lexicon is an
-    extension (its base is not installed): add documents a silent skip."""
-    if built.renamed_lexicon is None:
-        return False
-    rest = [lx for i, lx in enumerate(case['resource']['lexicons']) if i != built.renamed_lexicon]
-    return bool(rest) and all(lx.get('extends') for lx in rest)
 
 
 def mutant_oracle(case):
@@ -466,7 +482,7 @@ def mutant_oracle(case):
 
     if built.header == 'variant' and is_lmf is True:
         # header accepted: the file is a valid document
-        _check_valid_file(case, f, 'header-variant:' + built.cls, case['db'], d, out)
+        _check_valid_file(case, f, 'header-variant', case['db'], d, out)
         return out
 
     if built.header == 'intact' and is_lmf is False:
@@ -486,7 +502,7 @@ def mutant_oracle(case):
                         [f"{lx.get('id')}:{lx.get('version')}" for lx in got['lexicons']],
                         note=built.what))
 
-    _add_must_reject(case, f, built, d, out, strict=not _precheck_skips_all(case, built))
+    _add_must_reject(case, f, built, d, out)
     return out
 
 
